@@ -854,6 +854,15 @@ func integerSufficient(t *Term) *Term {
 		return nil
 	}
 	sum := mkInt64(0)
+	lifted, ntoring := 0, 0
+	for _, e := range p.t {
+		if len(e.m.f) == 1 && e.m.f[0].atom.Op == "app" && e.m.f[0].atom.Name == "toring" {
+			ntoring++
+		}
+	}
+	if ntoring < 2 {
+		lifted = 1 // no lifting unless the equation is mostly over integer-valued atoms
+	}
 	for _, e := range p.t {
 		c := new(big.Int).Set(e.c)
 		if c.Cmp(half) > 0 {
@@ -868,8 +877,10 @@ func integerSufficient(t *Term) *Term {
 		}
 		a := e.m.f[0].atom
 		if a.Op != "app" || a.Name != "toring" {
-			// any other residue atom A: toring(lift(A)) = A, so its canonical representative may stand for it
-			if isAtomTerm(a) && modulusOf(a.Sort) != nil {
+			// one other residue atom A among integer-valued ones (a scalar against its window decomposition):
+			// toring(lift(A)) = A, so its canonical representative may stand for it
+			if isAtomTerm(a) && modulusOf(a.Sort) != nil && lifted == 0 {
+				lifted++
 				sum = mkAdd(sum, mkScale(mkLift(a), c))
 				continue
 			}
